@@ -74,7 +74,9 @@ def run_case(case, rng):
                               f"iteration {Probe.iters}: value[{s!r}]={node.value!r} < V*={Vstar[s]!r}",
                               heuristic=hk)
 
-    planner = LAOStar(heuristic=lambda s: h[s], randomize_action_order=rao,
+    hvals = set(h.values())
+    hfun = (lambda s: h[s]) if (len(hvals) > 1 or rng.random() < 0.5) else next(iter(hvals))   # a constant may be passed as a number
+    planner = LAOStar(heuristic=hfun, randomize_action_order=rao,
                       randomize_nextstate_order=rno, event_listener_class=Probe, seed=seed)
     if rng.random() < 0.25:
         # the same planner object first plans on a sibling problem over the same labels with one more absorbing
